@@ -65,28 +65,13 @@ def array_fills(an, buf):
             continue
         if c.name in ("index_mut", "deref_mut", "as_mut", "as_mut_slice") or c.trait in ("std::ops::IndexMut", "std::ops::DerefMut"):
             continue  # only produces a derived reference
+        if c.name in ("split_at_mut",) and c.krate in ("core", "alloc", "std"):
+            continue  # only produces derived references
         if c.name == "copy_from_slice" and ev["arg"] == 0:
-            rng = (0, None)
-            dest = t.args[0]
-            if dest.place.is_local():
-                d = an.unique_def(dest.place.local)
-                # walk through reborrows/casts to an index_mut call
-                cur = dest.place.local
-                for _ in range(8):
-                    d = an.unique_def(cur)
-                    if d is None:
-                        break
-                    node = d[2]
-                    rv = getattr(node, "rv", None)
-                    if rv is not None and rv.kind in ("use", "cast") and rv.ops[0].kind in ("copy", "move") and rv.ops[0].place.is_local():
-                        cur = rv.ops[0].place.local
-                        continue
-                    if rv is not None and rv.kind == "ref" and rv.place.proj == ["deref"]:
-                        cur = rv.place.local
-                        continue
-                    if getattr(node, "callee", None) is not None and node.callee.trait in ("std::ops::IndexMut",) and len(node.args) == 2:
-                        rng = range_of(an.operand_expr(node.args[1], d[0], d[1]))
-                    break
+            rng = slice_range(an.operand_expr(t.args[0], ev["bb"], ev["idx"]))
+            if rng is None:
+                others.append(ev)
+                continue
             src = strip(an.operand_expr(t.args[1], ev["bb"], ev["idx"]))
             fills.append(dict(range=rng, src=src, sp=t.sp, bb=ev["bb"]))
         else:
@@ -178,3 +163,80 @@ def _ascii_off(x, default):
                 return None
             return a - b if ex.a[0].startswith("Sub") else a + b
     return None
+
+
+def bytes_value(an, e):
+    """If e denotes an owned byte container (Vec<u8>, Bytes, BytesMut) holding
+    exactly the bytes of ONE source expression, return that source (stripped):
+      x.to_vec() | Vec::from(x) | x.into() | x.to_owned() | Bytes::copy_from_slice(x)
+      a fresh Vec::new()/with_capacity(n)/BytesMut::new() local that received
+      exactly one extend_from_slice(x) / put_slice(x) and nothing else."""
+    from kernel import unmut
+    es = strip(e)
+    if es.k == "call" and es.a[1] and (es.a[0].name == "to_vec" or (es.a[0].name in ("to_owned", "into_vec") and es.a[0].krate in ("core", "alloc", "std"))):
+        return strip(es.a[1][0])
+    if es.k == "call" and es.a[0].name in ("from", "into") and es.a[0].trait in ("std::convert::From", "std::convert::Into") and len(es.a[1]) == 1 and "Vec<u8>" in (es.a[0].full or ""):
+        return strip(es.a[1][0])
+    if es.k == "call" and es.a[0].name == "copy_from_slice" and len(es.a[1]) == 1:
+        return strip(es.a[1][0])
+    if es.k == "mutated":
+        local = es.a[1]
+        d = def_expr(an, local)
+        if d is None:
+            return None
+        d = unmut(d)
+        if not (d.k == "call" and d.a[0].name in ("new", "with_capacity") and not d.a[0].local and ("Vec" in d.a[0].fn or "BytesMut" in d.a[0].fn)):
+            return None
+        src = None
+        for mu in mutations(an, local):
+            if mu["kind"] != "mutcall":
+                return None
+            t = mu["term"]
+            c = t.callee
+            if c is None or c.name not in ("extend_from_slice", "put_slice") or len(t.args) != 2 or mu.get("arg") != 0 or src is not None:
+                return None
+            src = strip(an.operand_expr(t.args[1], mu["bb"], mu["idx"]))
+        return src
+    return None
+
+
+def slice_range(e):
+    """(lo, hi|None) of the part of its ultimate base that a slice-valued
+    expression denotes; composes `b[lo..hi]`, `b[..]`, `split_at(_mut)(b, k).0/.1`
+    with constant bounds.  None if a bound is not constant."""
+    from kernel import unmut
+    e = unmut(e)
+    if e.k == "call" and e.a[0].name in ("index", "index_mut") and len(e.a[1]) == 2 and e.a[0].trait in ("std::ops::Index", "std::ops::IndexMut"):
+        base = slice_range(e.a[1][0])
+        r = range_of(e.a[1][1])
+        if base is None or r is None:
+            return None
+        lo, hi = r
+        if base == (0, None):
+            return (lo, hi)  # may be symbolic: ("expr", e)
+        if not isinstance(lo, int) or not (hi is None or isinstance(hi, int)):
+            return None
+        blo, bhi = base
+        if not isinstance(blo, int) or not (bhi is None or isinstance(bhi, int)):
+            return None
+        nlo = blo + lo
+        nhi = bhi if hi is None else blo + hi
+        if bhi is not None and (nhi is None or nhi > bhi or nlo > bhi):
+            return None
+        return (nlo, nhi)
+    if e.k == "field" and e.a[1] in ("0", "1"):
+        s = unmut(e.a[0])
+        if s.k == "call" and s.a[0].name in ("split_at", "split_at_mut") and len(s.a[1]) == 2 and s.a[0].krate in ("core", "alloc", "std"):
+            base = slice_range(s.a[1][0])
+            k = strip(s.a[1][1])
+            if base is None or not (k.k == "const" and isinstance(k.a[0], int)):
+                return None
+            blo, bhi = base
+            if not isinstance(blo, int) or not (bhi is None or isinstance(bhi, int)):
+                return None
+            if bhi is not None and blo + k.a[0] > bhi:
+                return None
+            return (blo, blo + k.a[0]) if e.a[1] == "0" else (blo + k.a[0], bhi)
+        return None
+    return (0, None)
+
